@@ -191,6 +191,34 @@ def run_item(item):
         if "ges_pflegev_beitr_satz_arbeitnehmer" in T.columns:
             cap("ges_pflegev_beitr_arbeitnehmer_m<=2 x full rate x ceiling", col("ges_pflegev_beitr_arbeitnehmer_m"),
                 2 * ceil_kv * (2 * col("ges_pflegev_beitr_satz_arbeitnehmer") + 0.01), tol=0.01)
+    # assessment bases never exceed the ceiling of their own branch (ceilings read from the parameters, not from the run)
+    if bbg_kv:
+        ceil_kv = np.where(ost, bbg_kv["ost"], bbg_kv["west"])
+        for base in ("_ges_krankenv_bemessungsgrundlage_rente_m", "_ges_krankenv_bemessungsgrundlage_eink_selbständig",
+                     "_ges_krankenv_bruttolohn_m", "_ges_krankenv_bruttolohn_reg_beschäftigt_m"):
+            cap(f"{base}<=health ceiling", col(base), ceil_kv, tol=0.01)
+        cap("_ges_krankenv_beitr_bemess_grenze_m<=health ceiling of the parameters", col("_ges_krankenv_beitr_bemess_grenze_m"), ceil_kv)
+    if bbg_rv:
+        cap("_ges_rentenv_beitr_bruttolohn_m<=pension ceiling", col("_ges_rentenv_beitr_bruttolohn_m"), ceil_rv, tol=0.01)
+        cap("_ges_rentenv_beitr_bemess_grenze_m<=pension ceiling of the parameters", col("_ges_rentenv_beitr_bemess_grenze_m"), ceil_rv)
+    # per income source: wage part (own share; self-employed the full rate) + pension part, each rate x health ceiling
+    if bbg_kv and "ges_krankenv_beitr_satz_arbeitnehmer" in T.columns and "selbstständig" in T.columns:
+        an = col("ges_krankenv_beitr_satz_arbeitnehmer")
+        ag = col("_ges_krankenv_beitr_satz_arbeitgeber") if "_ges_krankenv_beitr_satz_arbeitgeber" in T.columns else an
+        selbst = T["selbstständig"].to_numpy()
+        pens = (col("sum_ges_rente_priv_rente_m") if "sum_ges_rente_priv_rente_m" in T.columns
+                else col("priv_rente_m") + (col("ges_rente_m") if "ges_rente_m" in T.columns else 0.0))
+        has_p = (pens > 0).astype(float)
+        cap("ges_krankenv_beitr_rentner_m<=own rate x health ceiling", col("ges_krankenv_beitr_rentner_m"), an * ceil_kv, tol=0.01)
+        cap("ges_krankenv_beitr_arbeitnehmer_m<=rate x ceiling per income source", col("ges_krankenv_beitr_arbeitnehmer_m"),
+            np.where(selbst, an + ag, an) * ceil_kv + has_p * an * ceil_kv, tol=0.01)
+        std = _get(sv, "beitr_satz", "ges_pflegev", "standard")
+        if std is not None and "ges_pflegev_beitr_satz_arbeitnehmer" in T.columns:
+            pan = col("ges_pflegev_beitr_satz_arbeitnehmer")
+            cap("ges_pflegev_beitr_rentner_m<=(own + standard rate) x health ceiling", col("ges_pflegev_beitr_rentner_m"),
+                (pan + float(std)) * ceil_kv, tol=0.01)
+            cap("ges_pflegev_beitr_arbeitnehmer_m<=rate x ceiling per income source", col("ges_pflegev_beitr_arbeitnehmer_m"),
+                np.where(selbst, pan + float(std), pan) * ceil_kv + has_p * (pan + float(std)) * ceil_kv, tol=0.01)
     # Elterngeld <= maximum + bonuses
     hb = _get(params, "elterngeld", "höchstbetrag")
     if hb is not None and "elterngeld_m" in T.columns:
